@@ -1,937 +1,7 @@
 //@include prelude/head.rs
 //@include prelude/time.rs
 //@include prelude/net.rs
-
-// TRUSTED: std contracts not in vstd
-pub assume_specification<'a, K, V, S, A, Q> [std::collections::HashMap::<K, V, S, A>::get_mut] (m: &'a mut std::collections::HashMap<K, V, S, A>, k: &Q) -> (r: std::option::Option<&'a mut V>)
-    where
-    A: std::alloc::Allocator,
-    K: std::cmp::Eq + std::hash::Hash + std::borrow::Borrow<Q>,
-    Q: std::marker::MetaSized + std::hash::Hash + std::cmp::Eq + ?Sized,
-    S: std::hash::BuildHasher,
-    ensures obeys_key_model::<K>() && builds_valid_hashers::<S>() ==> match r {
-            Some(v) => contains_borrowed_key(old(m)@, k) && maps_borrowed_key_to_value(old(m)@, k, *v)
-                && contains_borrowed_key(final(m)@, k) && maps_borrowed_key_to_value(final(m)@, k, *final(v))
-                && (forall|rest: Map<K, V>| #[trigger] borrowed_key_removed(old(m)@, rest, k) ==> borrowed_key_removed(final(m)@, rest, k)),
-            None => !contains_borrowed_key(old(m)@, k) && final(m)@ == old(m)@,
-        };
-
-// trusted: Vec::retain keeps exactly the elements for which the closure returned true, in order
-pub open spec fn retained<T>(o: Seq<T>, n: Seq<T>, pred: spec_fn(T) -> bool) -> bool { n == o.filter(pred) }
-pub assume_specification<T, A, F> [Vec::<T, A>::retain] (v: &mut Vec<T, A>, f: F)
-    where A: std::alloc::Allocator, F: FnMut(&T) -> bool,
-    requires forall|i: int| 0 <= i < old(v).len() ==> call_requires(f, (&old(v)[i],)),
-    ensures exists|pred: spec_fn(T) -> bool| #[trigger] retained(old(v)@, final(v)@, pred)
-        && (forall|i: int| 0 <= i < old(v).len() ==> call_ensures(f, (&#[trigger] old(v)@[i],), pred(old(v)@[i])));
-
-// TRUSTED: derived Hash/Eq on InfoHash (plain bytes) agree
-pub broadcast axiom fn infohash_key_model() ensures #[trigger] obeys_key_model::<InfoHash>();
-
-//@begin const src/info_hash.rs - INFO_HASH_LEN
-pub const INFO_HASH_LEN: usize = 20;
-//@end
-//@begin type src/info_hash.rs - struct InfoHash
-#[derive(Structural, Copy, Clone, PartialEq, Eq, Hash)]
-pub struct InfoHash(pub [u8; INFO_HASH_LEN]);
-//@end
-// ------------------------------------------------------------------ storage.rs items
-//@begin const src/storage.rs - EXPIRATION_TIME
-pub exec const EXPIRATION_TIME: Duration ensures dur_nanos(EXPIRATION_TIME) == 86_400_000_000_000 { Duration::from_secs(24 * 60 * 60) }
-//@end
-//@begin type src/storage.rs - struct ItemExpiration
-pub struct ItemExpiration {
-    pub address: SocketAddr,
-    pub inserted: Instant,
-    pub info_hash: InfoHash,
-}
-//@end
-// TRUSTED: derived Clone is field-wise
-impl Clone for ItemExpiration { #[verifier::external_body] fn clone(&self) -> (r: Self) ensures r == *self { unimplemented!() } }
-//@begin type src/storage.rs - struct AnnounceItem
-pub struct AnnounceItem {
-    pub expiration: ItemExpiration,
-}
-//@end
-
-pub type Key = (InfoHash, SocketAddr);
-pub open spec fn ekey(e: ItemExpiration) -> Key { (e.info_hash, e.address) }
-pub open spec fn ikey(a: AnnounceItem) -> Key { ekey(a.expiration) }
-pub open spec fn DAY() -> int { 86_400_000_000_000int }
-pub open spec fn expired_at(e: ItemExpiration, now: int) -> bool { now - inst_nanos(e.inserted) >= DAY() }
-
-impl PartialEqSpecImpl for ItemExpiration {
-    open spec fn obeys_eq_spec() -> bool { true }
-    open spec fn eq_spec(&self, other: &ItemExpiration) -> bool { ekey(*self) == ekey(*other) }
-}
-impl PartialEq for ItemExpiration {
-//@begin fn src/storage.rs impl:PartialEq@for@ItemExpiration eq
-    fn eq(&self, other: &ItemExpiration) -> bool {
-        self.address() == other.address() && self.info_hash() == other.info_hash()
-    }
-//@end
-}
-impl PartialEqSpecImpl for AnnounceItem {
-    open spec fn obeys_eq_spec() -> bool { true }
-    open spec fn eq_spec(&self, other: &AnnounceItem) -> bool { ikey(*self) == ikey(*other) }
-}
-// TRUSTED: derived PartialEq on AnnounceItem compares its single field with ItemExpiration::eq
-impl PartialEq for AnnounceItem { fn eq(&self, other: &AnnounceItem) -> bool { self.expiration == other.expiration } }
-
-impl ItemExpiration {
-//@begin fn src/storage.rs impl:ItemExpiration new
-    pub fn new(info_hash: InfoHash, address: SocketAddr) -> (r: ItemExpiration)
-        ensures ekey(r) == (info_hash, address), inst_nanos(r.inserted) == clock()
-    {
-        ItemExpiration {
-            address,
-            inserted: Instant::now(),
-            info_hash,
-        }
-    }
-//@end
-
-//@begin fn src/storage.rs impl:ItemExpiration is_expired
-    pub fn is_expired(&self, now: Instant) -> (r: bool)
-        ensures r == expired_at(*self, inst_nanos(now))
-    {
-        broadcast use inst_sub_ax, duration_ord_ax;
-        now - self.inserted >= EXPIRATION_TIME
-    }
-//@end
-
-//@begin fn src/storage.rs impl:ItemExpiration info_hash
-    pub fn info_hash(&self) -> (r: InfoHash) ensures r == self.info_hash {
-        self.info_hash
-    }
-//@end
-
-//@begin fn src/storage.rs impl:ItemExpiration address
-    pub fn address(&self) -> (r: SocketAddr) ensures r == self.address {
-        self.address
-    }
-//@end
-}
-
-impl AnnounceItem {
-//@begin fn src/storage.rs impl:AnnounceItem new
-    pub fn new(info_hash: InfoHash, address: SocketAddr) -> (r: AnnounceItem)
-        ensures ikey(r) == (info_hash, address), inst_nanos(r.expiration.inserted) == clock()
-    {
-        AnnounceItem {
-            expiration: ItemExpiration::new(info_hash, address),
-        }
-    }
-//@end
-
-//@begin fn src/storage.rs impl:AnnounceItem expiration
-    pub fn expiration(&self) -> (r: ItemExpiration) ensures r == self.expiration {
-        self.expiration.clone()
-    }
-//@end
-
-//@begin fn src/storage.rs impl:AnnounceItem address
-    pub fn address(&self) -> (r: SocketAddr) ensures r == self.expiration.address {
-        self.expiration.address()
-    }
-//@end
-
-//@begin fn src/storage.rs impl:AnnounceItem info_hash
-    pub fn info_hash(&self) -> (r: InfoHash) ensures r == self.expiration.info_hash {
-        self.expiration.info_hash()
-    }
-//@end
-}
-
-// source index of the i-th element of s.filter(p)
-pub open spec fn fsrc<A>(s: Seq<A>, p: spec_fn(A) -> bool, i: int) -> int
-    decreases s.len()
-{
-    if s.len() == 0 { 0 } else {
-        let d = s.drop_last();
-        if p(s.last()) && i == d.filter(p).len() { s.len() - 1 } else { fsrc(d, p, i) }
-    }
-}
-// position in s.filter(p) of the source element j (meaningful when p(s[j]))
-pub open spec fn fdst<A>(s: Seq<A>, p: spec_fn(A) -> bool, j: int) -> int
-    decreases s.len()
-{
-    if s.len() == 0 { 0 } else {
-        let d = s.drop_last();
-        if j == s.len() - 1 { d.filter(p).len() as int } else { fdst(d, p, j) }
-    }
-}
-
-pub proof fn lemma_fsrc<A>(s: Seq<A>, p: spec_fn(A) -> bool, i: int)
-    requires 0 <= i < s.filter(p).len()
-    ensures 0 <= fsrc(s, p, i) < s.len(), s[fsrc(s, p, i)] == s.filter(p)[i], p(s.filter(p)[i]), s.filter(p).len() <= s.len()
-    decreases s.len()
-{
-    reveal_with_fuel(Seq::filter, 2);
-    if s.len() > 0 {
-        let d = s.drop_last();
-        if p(s.last()) && i == d.filter(p).len() {
-            if d.filter(p).len() > 0 { lemma_fsrc(d, p, 0); }
-        } else {
-            lemma_fsrc(d, p, i);
-        }
-    }
-}
-
-pub proof fn lemma_flen<A>(s: Seq<A>, p: spec_fn(A) -> bool)
-    ensures s.filter(p).len() <= s.len()
-    decreases s.len()
-{
-    reveal_with_fuel(Seq::filter, 2);
-    if s.len() > 0 { lemma_flen(s.drop_last(), p); }
-}
-
-pub proof fn lemma_fsrc_mono<A>(s: Seq<A>, p: spec_fn(A) -> bool, i1: int, i2: int)
-    requires 0 <= i1 < i2 < s.filter(p).len()
-    ensures fsrc(s, p, i1) < fsrc(s, p, i2)
-    decreases s.len()
-{
-    reveal_with_fuel(Seq::filter, 2);
-    if s.len() > 0 {
-        let d = s.drop_last();
-        if p(s.last()) && i2 == d.filter(p).len() {
-            lemma_fsrc(d, p, i1);
-        } else {
-            lemma_fsrc_mono(d, p, i1, i2);
-        }
-    }
-}
-
-pub proof fn lemma_fdst<A>(s: Seq<A>, p: spec_fn(A) -> bool, j: int)
-    requires 0 <= j < s.len(), p(s[j])
-    ensures 0 <= fdst(s, p, j) < s.filter(p).len(), s.filter(p)[fdst(s, p, j)] == s[j]
-    decreases s.len()
-{
-    reveal_with_fuel(Seq::filter, 2);
-    let d = s.drop_last();
-    if j == s.len() - 1 {
-    } else {
-        lemma_fdst(d, p, j);
-    }
-}
-
-pub proof fn lemma_filter_all<A>(s: Seq<A>, p: spec_fn(A) -> bool)
-    requires forall|j: int| 0 <= j < s.len() ==> p(#[trigger] s[j])
-    ensures s.filter(p) == s
-    decreases s.len()
-{
-    reveal_with_fuel(Seq::filter, 2);
-    if s.len() > 0 {
-        let d = s.drop_last();
-        assert forall|j: int| 0 <= j < d.len() implies p(#[trigger] d[j]) by { assert(d[j] == s[j]); }
-        lemma_filter_all(d, p);
-        assert(s.filter(p) =~= s);
-    }
-}
-
-pub proof fn lemma_filter_some_removed<A>(s: Seq<A>, p: spec_fn(A) -> bool, j: int)
-    requires 0 <= j < s.len(), !p(s[j])
-    ensures s.filter(p).len() < s.len()
-    decreases s.len()
-{
-    reveal_with_fuel(Seq::filter, 2);
-    let d = s.drop_last();
-    lemma_flen(d, p);
-    if j < s.len() - 1 { lemma_filter_some_removed(d, p, j); }
-}
-
-// ------------------------------------------------------------------ specs of the store
-pub open spec fn e_nodup(s: Seq<ItemExpiration>) -> bool { forall|i: int, j: int| 0 <= i < j < s.len() ==> ekey(#[trigger] s[i]) != ekey(#[trigger] s[j]) }
-pub open spec fn e_sorted(s: Seq<ItemExpiration>) -> bool { forall|i: int, j: int| 0 <= i < j < s.len() ==> inst_nanos((#[trigger] s[i]).inserted) <= inst_nanos((#[trigger] s[j]).inserted) }
-pub open spec fn e_past(s: Seq<ItemExpiration>) -> bool { forall|i: int| 0 <= i < s.len() ==> inst_nanos((#[trigger] s[i]).inserted) <= clock() }
-pub open spec fn e_idx(s: Seq<ItemExpiration>, k: Key, i: int) -> bool { 0 <= i < s.len() && ekey(s[i]) == k }
-pub open spec fn e_has(s: Seq<ItemExpiration>, k: Key) -> bool { exists|i: int| #[trigger] e_idx(s, k, i) }
-pub open spec fn l_idx(l: Seq<AnnounceItem>, k: Key, j: int) -> bool { 0 <= j < l.len() && ikey(l[j]) == k }
-pub open spec fn l_has(l: Seq<AnnounceItem>, k: Key) -> bool { exists|j: int| #[trigger] l_idx(l, k, j) }
-pub open spec fn l_ok(l: Seq<AnnounceItem>, h: InfoHash) -> bool {
-    l.len() > 0
-    && (forall|j: int| 0 <= j < l.len() ==> (#[trigger] l[j]).expiration.info_hash == h)
-    && (forall|i: int, j: int| 0 <= i < j < l.len() ==> ikey(#[trigger] l[i]) != ikey(#[trigger] l[j]))
-}
-pub open spec fn st_has(m: Map<InfoHash, Vec<AnnounceItem>>, k: Key) -> bool { m.contains_key(k.0) && l_has(m[k.0]@, k) }
-pub open spec fn st_ok(m: Map<InfoHash, Vec<AnnounceItem>>) -> bool { forall|h: InfoHash| #[trigger] m.contains_key(h) ==> l_ok(m[h]@, h) }
-
-
-pub proof fn lemma_filter_ext<A>(s: Seq<A>, p: spec_fn(A) -> bool, q: spec_fn(A) -> bool)
-    requires forall|i: int| 0 <= i < s.len() ==> p(#[trigger] s[i]) == q(s[i])
-    ensures s.filter(p) == s.filter(q)
-    decreases s.len()
-{
-    reveal_with_fuel(Seq::filter, 2);
-    if s.len() > 0 {
-        let d = s.drop_last();
-        assert forall|i: int| 0 <= i < d.len() implies p(#[trigger] d[i]) == q(d[i]) by { assert(d[i] == s[i]); }
-        lemma_filter_ext(d, p, q);
-        assert(p(s.last()) == q(s.last())) by { assert(s.last() == s[s.len() - 1]); }
-    }
-}
-pub open spec fn live_at(now: int) -> spec_fn(ItemExpiration) -> bool { |e: ItemExpiration| !expired_at(e, now) }
-pub open spec fn not_key(k: Key) -> spec_fn(ItemExpiration) -> bool { |e: ItemExpiration| ekey(e) != k }
-
-pub proof fn lemma_e_filter(s: Seq<ItemExpiration>, p: spec_fn(ItemExpiration) -> bool)
-    requires e_nodup(s), e_sorted(s), e_past(s)
-    ensures e_nodup(s.filter(p)), e_sorted(s.filter(p)), e_past(s.filter(p)), s.filter(p).len() <= s.len(),
-        forall|k: Key| #[trigger] e_has(s.filter(p), k) <==> exists|i: int| #[trigger] e_idx(s, k, i) && p(s[i]),
-{
-    let f = s.filter(p);
-    lemma_flen(s, p);
-    assert forall|i1: int, i2: int| 0 <= i1 < i2 < f.len() implies ekey(#[trigger] f[i1]) != ekey(#[trigger] f[i2])
-        && inst_nanos(f[i1].inserted) <= inst_nanos(f[i2].inserted) by {
-        lemma_fsrc(s, p, i1); lemma_fsrc(s, p, i2); lemma_fsrc_mono(s, p, i1, i2);
-    }
-    assert forall|i: int| 0 <= i < f.len() implies inst_nanos((#[trigger] f[i]).inserted) <= clock() by { lemma_fsrc(s, p, i); }
-    assert forall|k: Key| #[trigger] e_has(f, k) <==> exists|i: int| #[trigger] e_idx(s, k, i) && p(s[i]) by {
-        if e_has(f, k) {
-            let i = choose|i: int| e_idx(f, k, i);
-            lemma_fsrc(s, p, i);
-            assert(e_idx(s, k, fsrc(s, p, i)));
-        }
-        if exists|i: int| #[trigger] e_idx(s, k, i) && p(s[i]) {
-            let j = choose|i: int| #[trigger] e_idx(s, k, i) && p(s[i]);
-            lemma_fdst(s, p, j);
-            assert(e_idx(f, k, fdst(s, p, j)));
-        }
-    }
-}
-
-pub proof fn lemma_e_push(s: Seq<ItemExpiration>, x: ItemExpiration)
-    ensures forall|k: Key| #[trigger] e_has(s.push(x), k) <==> (e_has(s, k) || ekey(x) == k)
-{
-    let t = s.push(x);
-    assert forall|k: Key| #[trigger] e_has(t, k) <==> (e_has(s, k) || ekey(x) == k) by {
-        if e_has(t, k) { let i = choose|i: int| e_idx(t, k, i); if i < s.len() { assert(e_idx(s, k, i)); } }
-        if e_has(s, k) { let i = choose|i: int| e_idx(s, k, i); assert(e_idx(t, k, i)); }
-        if ekey(x) == k { assert(e_idx(t, k, s.len() as int)); }
-    }
-}
-
-pub open spec fn item_not_key(k: Key) -> spec_fn(AnnounceItem) -> bool { |a: AnnounceItem| ikey(a) != k }
-
-pub proof fn lemma_l_filter(l: Seq<AnnounceItem>, p: spec_fn(AnnounceItem) -> bool, h: InfoHash)
-    requires (forall|j: int| 0 <= j < l.len() ==> (#[trigger] l[j]).expiration.info_hash == h),
-        (forall|i: int, j: int| 0 <= i < j < l.len() ==> ikey(#[trigger] l[i]) != ikey(#[trigger] l[j])),
-    ensures (forall|j: int| 0 <= j < l.filter(p).len() ==> (#[trigger] l.filter(p)[j]).expiration.info_hash == h),
-        (forall|i: int, j: int| 0 <= i < j < l.filter(p).len() ==> ikey(#[trigger] l.filter(p)[i]) != ikey(#[trigger] l.filter(p)[j])),
-        forall|k: Key| #[trigger] l_has(l.filter(p), k) <==> exists|j: int| #[trigger] l_idx(l, k, j) && p(l[j]),
-{
-    let f = l.filter(p);
-    assert forall|j: int| 0 <= j < f.len() implies (#[trigger] f[j]).expiration.info_hash == h by { lemma_fsrc(l, p, j); }
-    assert forall|i1: int, i2: int| 0 <= i1 < i2 < f.len() implies ikey(#[trigger] f[i1]) != ikey(#[trigger] f[i2]) by {
-        lemma_fsrc(l, p, i1); lemma_fsrc(l, p, i2); lemma_fsrc_mono(l, p, i1, i2);
-    }
-    assert forall|k: Key| #[trigger] l_has(f, k) <==> exists|j: int| #[trigger] l_idx(l, k, j) && p(l[j]) by {
-        if l_has(f, k) { let i = choose|i: int| l_idx(f, k, i); lemma_fsrc(l, p, i); assert(l_idx(l, k, fsrc(l, p, i))); }
-        if exists|j: int| #[trigger] l_idx(l, k, j) && p(l[j]) {
-            let j = choose|j: int| #[trigger] l_idx(l, k, j) && p(l[j]);
-            lemma_fdst(l, p, j); assert(l_idx(f, k, fdst(l, p, j)));
-        }
-    }
-}
-
-pub proof fn lemma_filter_none<A>(s: Seq<A>, p: spec_fn(A) -> bool)
-    requires forall|j: int| 0 <= j < s.len() ==> !p(#[trigger] s[j])
-    ensures s.filter(p).len() == 0
-    decreases s.len()
-{
-    reveal_with_fuel(Seq::filter, 2);
-    if s.len() > 0 {
-        let d = s.drop_last();
-        assert forall|j: int| 0 <= j < d.len() implies !p(#[trigger] d[j]) by { assert(d[j] == s[j]); }
-        lemma_filter_none(d, p);
-        assert(!p(s.last())) by { assert(s.last() == s[s.len() - 1]); }
-    }
-}
-
-// a predicate that is false on a prefix and true on the rest selects exactly the rest
-pub proof fn lemma_filter_suffix<A>(s: Seq<A>, p: spec_fn(A) -> bool, n: int)
-    requires 0 <= n <= s.len(), forall|j: int| 0 <= j < n ==> !p(#[trigger] s[j]), forall|j: int| n <= j < s.len() ==> p(#[trigger] s[j])
-    ensures s.filter(p) == s.subrange(n, s.len() as int)
-    decreases s.len()
-{
-    reveal_with_fuel(Seq::filter, 2);
-    if s.len() == n {
-        lemma_filter_none(s, p);
-        assert(s.filter(p) =~= s.subrange(n, s.len() as int));
-    } else {
-        let d = s.drop_last();
-        assert forall|j: int| 0 <= j < n implies !p(#[trigger] d[j]) by { assert(d[j] == s[j]); }
-        assert forall|j: int| n <= j < d.len() implies p(#[trigger] d[j]) by { assert(d[j] == s[j]); }
-        lemma_filter_suffix(d, p, n);
-        assert(p(s.last())) by { assert(s.last() == s[s.len() - 1]); }
-        assert(s.filter(p) =~= s.subrange(n, s.len() as int));
-    }
-}
-
-pub open spec fn r_idx(s: Seq<ItemExpiration>, k: Key, lo: int, i: int) -> bool { lo <= i < s.len() && ekey(s[i]) == k }
-pub open spec fn r_has(s: Seq<ItemExpiration>, k: Key, lo: int) -> bool { exists|i: int| #[trigger] r_idx(s, k, lo, i) }
-
-pub proof fn lemma_r_step(s: Seq<ItemExpiration>, lo: int)
-    requires e_nodup(s), 0 <= lo < s.len()
-    ensures ({ let lo1 = lo + 1; forall|k: Key| #[trigger] r_has(s, k, lo1) <==> (r_has(s, k, lo) && k != ekey(s[lo])) })
-{
-    let lo1 = lo + 1;
-    assert forall|k: Key| #[trigger] r_has(s, k, lo1) <==> (r_has(s, k, lo) && k != ekey(s[lo])) by {
-        if r_has(s, k, lo1) { let i = choose|i: int| r_idx(s, k, lo1, i); assert(r_idx(s, k, lo, i)); }
-        if r_has(s, k, lo) && k != ekey(s[lo]) { let i = choose|i: int| r_idx(s, k, lo, i); assert(r_idx(s, k, lo1, i)); }
-    }
-}
-pub proof fn lemma_r_zero(s: Seq<ItemExpiration>)
-    ensures forall|k: Key| #[trigger] r_has(s, k, 0) <==> e_has(s, k)
-{
-    assert forall|k: Key| #[trigger] r_has(s, k, 0) <==> e_has(s, k) by {
-        if r_has(s, k, 0) { let i = choose|i: int| r_idx(s, k, 0, i); assert(e_idx(s, k, i)); }
-        if e_has(s, k) { let i = choose|i: int| e_idx(s, k, i); assert(r_idx(s, k, 0, i)); }
-    }
-}
-pub proof fn lemma_r_suffix(s: Seq<ItemExpiration>, n: int)
-    requires 0 <= n <= s.len()
-    ensures forall|k: Key| #[trigger] r_has(s, k, n) <==> e_has(s.subrange(n, s.len() as int), k)
-{
-    let t = s.subrange(n, s.len() as int);
-    assert forall|k: Key| #[trigger] r_has(s, k, n) <==> e_has(t, k) by {
-        if r_has(s, k, n) { let i = choose|i: int| r_idx(s, k, n, i); assert(e_idx(t, k, i - n)); }
-        if e_has(t, k) { let i = choose|i: int| e_idx(t, k, i); assert(r_idx(s, k, n, i + n)); }
-    }
-}
-
-// verified stand-in for `opt.into_iter().flatten().map(f)` collected eagerly (rule R-eager)
-pub fn vx_opt_vec_map<T, U, F: Fn(&T) -> U>(o: Option<&Vec<T>>, f: F) -> (r: Vec<U>)
-    requires o is Some ==> forall|i: int| 0 <= i < o->0.len() ==> call_requires(f, (&o->0[i],)),
-    ensures o is None ==> r@.len() == 0,
-        o is Some ==> r@.len() == o->0@.len() && forall|i: int| 0 <= i < r@.len() ==> call_ensures(f, (&o->0[i],), #[trigger] r@[i]),
-{
-    let mut out: Vec<U> = Vec::new();
-    if let Some(v) = o {
-        let mut i: usize = 0;
-        while i < v.len()
-            invariant i <= v.len(), out@.len() == i, o == Some(v),
-                forall|i: int| 0 <= i < v.len() ==> call_requires(f, (&v[i],)),
-                forall|j: int| 0 <= j < i ==> call_ensures(f, (&v[j],), #[trigger] out@[j]),
-            decreases v.len() - i,
-        {
-            out.push(f(&v[i]));
-            i += 1;
-        }
-    }
-    out
-}
-
-//@begin const src/storage.rs - MAX_ITEMS_STORED
-pub const MAX_ITEMS_STORED: usize = 500;
-//@end
-
-//@begin type src/storage.rs - struct AnnounceStorage
-pub struct AnnounceStorage {
-    pub storage: HashMap<InfoHash, Vec<AnnounceItem>>,
-    pub expires: Vec<ItemExpiration>,
-}
-//@end
-
-// ---- verified helpers standing in for std adapters without a usable vstd spec
-pub fn vx_any<T, F: Fn(&T) -> bool>(s: &Vec<T>, f: F) -> (r: bool)
-    requires forall|i: int| 0 <= i < s.len() ==> call_requires(f, (&s[i],)),
-    ensures r ==> exists|i: int| 0 <= i < s.len() && call_ensures(f, (&s[i],), true),
-            !r ==> forall|i: int| 0 <= i < s.len() ==> call_ensures(f, (&s[i],), false),
-{
-    let mut i: usize = 0;
-    while i < s.len()
-        invariant i <= s.len(),
-            forall|i: int| 0 <= i < s.len() ==> call_requires(f, (&s[i],)),
-            forall|j: int| 0 <= j < i ==> call_ensures(f, (&s[j],), false),
-        decreases s.len() - i,
-    {
-        if f(&s[i]) { return true; }
-        i += 1;
-    }
-    false
-}
-
-pub fn vx_take_while_count<T, F: Fn(&T) -> bool>(s: &Vec<T>, f: F) -> (n: usize)
-    requires forall|i: int| 0 <= i < s.len() ==> call_requires(f, (&s[i],)),
-    ensures n <= s.len(),
-        forall|j: int| 0 <= j < n ==> call_ensures(f, (&s[j],), true),
-        n < s.len() ==> call_ensures(f, (&s[n as int],), false),
-{
-    let mut i: usize = 0;
-    while i < s.len()
-        invariant i <= s.len(),
-            forall|i: int| 0 <= i < s.len() ==> call_requires(f, (&s[i],)),
-            forall|j: int| 0 <= j < i ==> call_ensures(f, (&s[j],), true),
-        decreases s.len() - i,
-    {
-        if !f(&s[i]) { return i; }
-        i += 1;
-    }
-    i
-}
-
-// trusted: Vec::drain(0..n) yields the first n elements in order and leaves the rest
-#[verifier::external_body]
-pub fn vx_drain_prefix<T>(s: &mut Vec<T>, n: usize) -> (r: Vec<T>)
-    requires n <= old(s).len()
-    ensures r@ == old(s)@.subrange(0, n as int), final(s)@ == old(s)@.subrange(n as int, old(s).len() as int)
-{ s.drain(0..n).collect() }
-
-// verified stand-in for the entry()/Occupied/Vacant idiom (rule R-entry)
-pub proof fn lemma_get_mut_frame(o: Map<InfoHash, Vec<AnnounceItem>>, n: Map<InfoHash, Vec<AnnounceItem>>, k: InfoHash)
-    requires obeys_key_model::<InfoHash>(), o.contains_key(k), n.contains_key(k),
-        forall|rest: Map<InfoHash, Vec<AnnounceItem>>| #[trigger] borrowed_key_removed(o, rest, &k) ==> borrowed_key_removed(n, rest, &k),
-    ensures n == o.insert(k, n[k])
-{
-    broadcast use vstd::std_specs::hash::group_hash_axioms;
-    assert(borrowed_key_removed(o, o.remove(k), &k));
-    assert(n.remove(k) == o.remove(k));
-    assert forall|kk: InfoHash| n.contains_key(kk) == o.insert(k, n[k]).contains_key(kk) by {
-        if kk != k { assert(n.remove(k).contains_key(kk) == o.remove(k).contains_key(kk)); }
-    }
-    assert forall|kk: InfoHash| n.contains_key(kk) implies n[kk] == o.insert(k, n[k])[kk] by {
-        if kk != k { assert(n.remove(k)[kk] == o.remove(k)[kk]); }
-    }
-    assert(n =~= o.insert(k, n[k]));
-}
-
-pub fn vx_entry_push(m: &mut HashMap<InfoHash, Vec<AnnounceItem>>, k: InfoHash, x: AnnounceItem)
-    ensures final(m)@.contains_key(k), final(m)@ == old(m)@.insert(k, final(m)@[k]),
-        final(m)@[k]@ == (if old(m)@.contains_key(k) { old(m)@[k]@.push(x) } else { seq![x] }),
-{
-    broadcast use vstd::std_specs::hash::group_hash_axioms, infohash_key_model;
-    if let Some(v) = m.get_mut(&k) {
-        v.push(x);
-        proof { lemma_get_mut_frame(old(m)@, m@, k); }
-    } else {
-        let mut v = Vec::new();
-        v.push(x);
-        m.insert(k, v);
-        proof { assert(m@ =~= old(m)@.insert(k, m@[k])); }
-    }
-}
-
-/// the entries younger than 24 h at time `now` (24 h from the statement)
-pub open spec fn E0(s: AnnounceStorage, now: int) -> Seq<ItemExpiration> { s.expires@.filter(live_at(now)) }
-
-impl AnnounceStorage {
-    pub open spec fn wf(&self) -> bool {
-        self.expires@.len() <= 500
-        && e_nodup(self.expires@) && e_sorted(self.expires@) && e_past(self.expires@)
-        && st_ok(self.storage@)
-        && (forall|k: Key| #[trigger] e_has(self.expires@, k) <==> st_has(self.storage@, k))
-    }
-
-//@begin fn src/storage.rs impl:AnnounceStorage remove_expired_items props=C07
-    pub fn remove_expired_items(&mut self, curr_time: Instant)
-        requires old(self).wf(), inst_nanos(curr_time) <= clock(),
-        ensures final(self).wf(),
-            final(self).expires@ == old(self).expires@.filter(live_at(inst_nanos(curr_time))), // @C07.expiry_exactly_24h
-    {
-        broadcast use vstd::std_specs::hash::group_hash_axioms, infohash_key_model;
-        let ghost now = inst_nanos(curr_time);
-        let ghost e_old = self.expires@;
-        let num_expired_items = vx_take_while_count(&self
-            .expires
-            , |i: &ItemExpiration| -> (b: bool) ensures b == expired_at(*i, inst_nanos(curr_time)) { i.is_expired(curr_time) });
-
-        // Remove the numbers of expired elements from the head of the list
-        let drained = vx_drain_prefix(&mut self.expires, num_expired_items);
-        let ghost n = num_expired_items as int;
-        let ghost dseq = drained@;
-        let ghost rest = self.expires@;
-        proof {
-            // sortedness: once an entry is live, all later ones are
-            assert forall|j: int| n <= j < e_old.len() implies live_at(now)(#[trigger] e_old[j]) by {
-                if n < e_old.len() { assert(!expired_at(e_old[n], now)); assert(inst_nanos(e_old[n].inserted) <= inst_nanos(e_old[j].inserted)); }
-            }
-            assert forall|j: int| 0 <= j < n implies !live_at(now)(#[trigger] e_old[j]) by {}
-            lemma_filter_suffix(e_old, live_at(now), n);
-            assert(rest == e_old.filter(live_at(now)));
-            assert(dseq == e_old.subrange(0, n));
-        }
-        proof {
-            lemma_r_zero(e_old);
-            lemma_filter_ext(e_old, live_at(now), live_at(now));
-            assert(rest =~= e_old.subrange(n, e_old.len() as int));
-        }
-        for item_expiration in it: drained
-            invariant
-                self.expires@ == rest, rest == e_old.subrange(n, e_old.len() as int), dseq == e_old.subrange(0, n), 0 <= n <= e_old.len(),
-                e_nodup(e_old), e_sorted(e_old), e_past(e_old), e_old.len() <= 500,
-                st_ok(self.storage@),
-                0 <= it.index@ <= n,
-                it.snapshot@.remaining() == dseq,
-                forall|k: Key| #[trigger] st_has(self.storage@, k) <==> r_has(e_old, k, it.index@ as int),
-                obeys_key_model::<InfoHash>(),
-        {
-            let ghost idx = it.index@ as int;
-            let ghost pre = self.storage@;
-            proof {
-                assert(item_expiration == dseq[idx]);
-                assert(dseq[idx] == e_old[idx]);
-            }
-            let ghost ke = ekey(item_expiration);
-            let info_hash = item_expiration.info_hash();
-            proof {
-                assert(r_idx(e_old, ke, idx, idx));
-                assert(st_has(pre, ke));
-                assert(pre.contains_key(info_hash));
-            }
-            let ghost l = pre[info_hash]@;
-
-            // Get a mutable reference to the list of contacts and remove all contacts that
-            // are associated with the expiration (should only be one such contact).
-            let remove_info_hash = if let Some(items) = self.storage.get_mut(&info_hash) {
-                items.retain(|a: &AnnounceItem| -> (b: bool) ensures b == (ikey(*a) != ekey(item_expiration)) { a.expiration() != item_expiration });
-                proof {
-                    let pr = choose|pr: spec_fn(AnnounceItem) -> bool| #[trigger] retained(l, items@, pr)
-                        && (forall|i: int| 0 <= i < l.len() ==> pr(#[trigger] l[i]) == (ikey(l[i]) != ke));
-                    lemma_filter_ext(l, pr, item_not_key(ke));
-                    assert(items@ == l.filter(item_not_key(ke)));
-                }
-
-                items.is_empty()
-            } else {
-                false
-            };
-            let ghost mid = self.storage@;
-            let ghost l2 = l.filter(item_not_key(ke));
-            proof {
-                lemma_get_mut_frame(pre, mid, info_hash);
-                assert(mid[info_hash]@ == l2);
-                assert(remove_info_hash == (l2.len() == 0));
-                assert(l_ok(l, info_hash));
-                lemma_l_filter(l, item_not_key(ke), info_hash);
-            }
-
-            // If we drained the list of contacts completely, remove the info hash entry
-            if remove_info_hash {
-                self.storage.remove(&info_hash);
-            }
-            proof {
-                let post = self.storage@;
-                let h = info_hash;
-                assert(post =~= (if l2.len() == 0 { pre.remove(h) } else { pre.insert(h, mid[h]) }));
-                assert forall|hh: InfoHash| #[trigger] post.contains_key(hh) implies l_ok(post[hh]@, hh) by {
-                    if hh != h { assert(pre.contains_key(hh)); assert(post[hh] == pre[hh]); }
-                }
-                lemma_r_step(e_old, idx);
-                let idx1 = idx + 1;
-                assert forall|k: Key| #[trigger] st_has(post, k) <==> r_has(e_old, k, idx1) by {
-                    // induction hypothesis and step lemma, instantiated at k
-                    assert(st_has(pre, k) <==> r_has(e_old, k, idx));
-                    assert(r_has(e_old, k, idx1) <==> (r_has(e_old, k, idx) && k != ke));
-                    if k.0 == h {
-                        assert(pre.contains_key(h));
-                        assert(st_has(pre, k) <==> l_has(l, k));
-                        // l_has(l2,k) <==> l_has(l,k) && k != ke
-                        if l_has(l2, k) {
-                            let j = choose|j: int| #[trigger] l_idx(l, k, j) && item_not_key(ke)(l[j]);
-                            assert(l_idx(l, k, j));
-                            assert(k != ke);
-                        }
-                        if l_has(l, k) && k != ke {
-                            let j = choose|j: int| l_idx(l, k, j);
-                            assert(l_idx(l, k, j) && item_not_key(ke)(l[j]));
-                            assert(l_has(l2, k));
-                        }
-                        assert(l_has(l2, k) <==> (l_has(l, k) && k != ke));
-                        if l2.len() == 0 {
-                            assert(!post.contains_key(h));
-                            assert(!st_has(post, k));
-                            if l_has(l2, k) { let j = choose|j: int| l_idx(l2, k, j); }
-                            assert(!l_has(l2, k));
-                        } else {
-                            assert(post.contains_key(h) && post[h]@ == l2);
-                            assert(st_has(post, k) <==> l_has(l2, k));
-                        }
-                    } else {
-                        assert(k != ke);
-                        assert(post.contains_key(k.0) == pre.contains_key(k.0));
-                        if pre.contains_key(k.0) { assert(post[k.0] == pre[k.0]); }
-                        assert(st_has(post, k) <==> st_has(pre, k));
-                    }
-                }
-            }
-        }
-        proof {
-            lemma_r_suffix(e_old, n);
-            lemma_e_filter(e_old, live_at(now));
-        }
-    }
-//@end
-
-//@begin fn src/storage.rs impl:AnnounceStorage insert_contact props=C07
-    pub fn insert_contact(&mut self, item: AnnounceItem) -> (r: Option<bool>)
-        requires old(self).wf(), item.expiration.info_hash == ikey(item).0,
-        ensures final(self).expires@ == old(self).expires@, st_ok(final(self).storage@),
-            r == (if e_has(old(self).expires@, ikey(item)) { Some(true) } else if old(self).expires@.len() < 500 { Some(false) } else { None::<bool> }),
-            r != Some(false) ==> final(self).storage@ == old(self).storage@,
-            r == Some(false) ==> forall|k: Key| #[trigger] st_has(final(self).storage@, k) <==> (st_has(old(self).storage@, k) || k == ikey(item)),
-    {
-        broadcast use vstd::std_specs::hash::group_hash_axioms, infohash_key_model;
-        let item_info_hash = item.info_hash();
-
-        // Check if the contact is already in our list
-        let already_in_list = if let Some(items) = self.storage.get_mut(&item_info_hash) {
-            let vx_ret = vx_any(items, |a: &AnnounceItem| -> (b: bool) ensures b == (ikey(*a) == ikey(item)) { a == &item });
-            let ghost found = vx_ret;
-            proof {
-                if found {
-                    let i = choose|i: int| 0 <= i < items@.len() && ikey(items@[i]) == ikey(item);
-                    assert(l_idx(items@, ikey(item), i));
-                } else {
-                    assert forall|j: int| !l_idx(items@, ikey(item), j) by {}
-                }
-                assert(found == l_has(items@, ikey(item)));
-            }
-            vx_ret
-        } else {
-            false
-        };
-        proof {
-            if old(self).storage@.contains_key(item_info_hash) { lemma_get_mut_frame(old(self).storage@, self.storage@, item_info_hash); }
-            assert(self.storage@ =~= old(self).storage@);
-            assert(already_in_list == st_has(old(self).storage@, ikey(item)));
-            assert(st_has(old(self).storage@, ikey(item)) == e_has(old(self).expires@, ikey(item)));
-        }
-
-        // Check if we need to insert it into the list and if we have room
-        match (already_in_list, self.expires.len() < MAX_ITEMS_STORED) {
-            (false, true) => {
-                let ghost pre = self.storage@;
-                // Place it into the appropriate list
-                vx_entry_push(&mut self.storage, item_info_hash, item);
-                proof {
-                    let h = item_info_hash;
-                    let post = self.storage@;
-                    let kk = ikey(item);
-                    // the touched list
-                    let nl = post[h]@;
-                    if pre.contains_key(h) {
-                        let ol = pre[h]@;
-                        assert(nl == ol.push(item));
-                        assert(l_ok(ol, h));
-                        assert forall|i: int, j: int| 0 <= i < j < nl.len() implies ikey(#[trigger] nl[i]) != ikey(#[trigger] nl[j]) by {
-                            if j == nl.len() - 1 { assert(!l_idx(ol, kk, i)); }
-                        }
-                        assert(l_ok(nl, h));
-                    } else {
-                        assert(nl == seq![item]);
-                        assert(l_ok(nl, h));
-                    }
-                    assert forall|hh: InfoHash| #[trigger] post.contains_key(hh) implies l_ok(post[hh]@, hh) by {
-                        if hh != h { assert(pre.contains_key(hh)); assert(post[hh] == pre[hh]); }
-                    }
-                    assert forall|k: Key| #[trigger] st_has(post, k) <==> (st_has(pre, k) || k == kk) by {
-                        if k.0 == h {
-                            if st_has(post, k) {
-                                let j = choose|j: int| l_idx(nl, k, j);
-                                if j < nl.len() - 1 { assert(pre.contains_key(h)); assert(l_idx(pre[h]@, k, j)); }
-                            }
-                            if st_has(pre, k) {
-                                let j = choose|j: int| l_idx(pre[h]@, k, j);
-                                assert(l_idx(nl, k, j));
-                            }
-                            if k == kk { assert(l_idx(nl, k, nl.len() - 1)); }
-                        } else {
-                            assert(post.contains_key(k.0) == pre.contains_key(k.0));
-                            if pre.contains_key(k.0) { assert(post[k.0] == pre[k.0]); }
-                        }
-                    }
-                }
-
-                Some(false)
-            }
-            (false, false) => None,
-            (true, false) => Some(true),
-            (true, true) => Some(true),
-        }
-    }
-//@end
-
-//@begin fn src/storage.rs impl:AnnounceStorage add props=C07
-    pub fn add(&mut self, info_hash: InfoHash, address: SocketAddr, curr_time: Instant) -> (r: bool)
-        requires old(self).wf(), inst_nanos(curr_time) <= clock(),
-        ensures final(self).wf(), // @C07.store_invariant
-            r == (e_has(E0(*old(self), inst_nanos(curr_time)), (info_hash, address)) || E0(*old(self), inst_nanos(curr_time)).len() < 500), // @C07.accepted_iff_already_stored_or_room
-            !r ==> final(self).expires@ == E0(*old(self), inst_nanos(curr_time)), // @C07.refusal_evicts_nothing
-            r ==> final(self).expires@.len() > 0 && ekey(final(self).expires@.last()) == (info_hash, address) && inst_nanos(final(self).expires@.last().inserted) == clock()
-                    && final(self).expires@.drop_last() == E0(*old(self), inst_nanos(curr_time)).filter(not_key((info_hash, address))), // @C07.renewal_restarts_24h_without_duplicate
-    {
-        // Clear out any old contacts that we have stored
-        self.remove_expired_items(curr_time);
-        let item = AnnounceItem::new(info_hash, address);
-        let item_expiration = item.expiration();
-        let ghost e0 = self.expires@;
-        let ghost k = (info_hash, address);
-
-        // Check if we already have the item and want to update it's expiration
-        match self.insert_contact(item) {
-            Some(true) => {
-                self.expires.retain(|i: &ItemExpiration| -> (b: bool) ensures b == (ekey(*i) != ekey(item_expiration)) { i != &item_expiration });
-                let ghost x1 = self.expires@;
-                self.expires.push(item_expiration);
-                proof {
-                    let pr = choose|pr: spec_fn(ItemExpiration) -> bool| #[trigger] retained(e0, x1, pr)
-                        && (forall|i: int| 0 <= i < e0.len() ==> pr(#[trigger] e0[i]) == (ekey(e0[i]) != k));
-                    lemma_filter_ext(e0, pr, not_key(k));
-                    let pr1 = not_key(k);
-                    assert(x1 == e0.filter(pr1));
-                    lemma_e_filter(e0, pr1);
-                    let wi = choose|i: int| e_idx(e0, k, i);
-                    assert(e_idx(e0, k, wi));
-                    lemma_filter_some_removed(e0, pr1, wi);
-                    let fin = self.expires@;
-                    assert(fin == x1.push(item_expiration));
-                    assert(fin.drop_last() =~= x1);
-                    lemma_e_push(x1, item_expiration);
-                    assert forall|i: int| 0 <= i < x1.len() implies ekey(#[trigger] x1[i]) != k && inst_nanos(x1[i].inserted) <= clock() by { lemma_fsrc(e0, pr1, i); }
-                    assert(e_nodup(fin));
-                    assert(e_sorted(fin));
-                    assert(e_past(fin));
-                    assert forall|key: Key| #[trigger] e_has(fin, key) <==> st_has(self.storage@, key) by {
-                        if key != k {
-                            if e_has(e0, key) { let i = choose|i: int| e_idx(e0, key, i); assert(e_idx(e0, key, i) && pr1(e0[i])); }
-                        }
-                    }
-                }
-
-                true
-            }
-            Some(false) => {
-                self.expires.push(item_expiration);
-                proof {
-                    let fin = self.expires@;
-                    assert(fin == e0.push(item_expiration));
-                    assert(fin.drop_last() =~= e0);
-                    lemma_e_push(e0, item_expiration);
-                    assert forall|i: int| 0 <= i < e0.len() implies ekey(#[trigger] e0[i]) != k by { if ekey(e0[i]) == k { assert(e_idx(e0, k, i)); } }
-                    assert(e_nodup(fin));
-                    assert(e_sorted(fin));
-                    assert(e_past(fin));
-                    let pr1 = not_key(k);
-                    assert forall|j: int| 0 <= j < e0.len() implies pr1(#[trigger] e0[j]) by {}
-                    lemma_filter_all(e0, pr1);
-                }
-
-                true
-            }
-            None => false,
-        }
-    }
-//@end
-
-//@begin fn src/storage.rs impl:AnnounceStorage new props=C07
-    pub fn new() -> (r: AnnounceStorage)
-        ensures r.wf(), r.expires@.len() == 0
-    {
-        let vx_ret = AnnounceStorage {
-            storage: HashMap::new(),
-            expires: Vec::new(),
-        };
-        let ghost r = vx_ret;
-        proof {
-            assert forall|k: Key| #[trigger] e_has(r.expires@, k) <==> st_has(r.storage@, k) by {
-                if e_has(r.expires@, k) { let i = choose|i: int| e_idx(r.expires@, k, i); }
-            }
-        }
-        vx_ret
-    }
-//@end
-
-    /// Returns true if the item was added/it's existing expiration updated, false otherwise.
-//@begin fn src/storage.rs impl:AnnounceStorage add_item props=C07
-    pub fn add_item(&mut self, info_hash: InfoHash, address: SocketAddr) -> (r: bool)
-        requires old(self).wf()
-        ensures final(self).wf(), // @C07.store_invariant
-            r == (e_has(E0(*old(self), clock()), (info_hash, address)) || E0(*old(self), clock()).len() < 500), // @C07.accepted_iff_already_stored_or_room
-            !r ==> final(self).expires@ == E0(*old(self), clock()), // @C07.refusal_evicts_nothing
-            r ==> final(self).expires@.len() > 0 && ekey(final(self).expires@.last()) == (info_hash, address) && inst_nanos(final(self).expires@.last().inserted) == clock()
-                    && final(self).expires@.drop_last() == E0(*old(self), clock()).filter(not_key((info_hash, address))), // @C07.renewal_restarts_24h_without_duplicate
-    {
-        self.add(info_hash, address, Instant::now())
-    }
-//@end
-
-//@begin fn src/storage.rs impl:AnnounceStorage find_items props=C07
-    pub fn find_items<'a>(
-        &'a mut self,
-        info_hash: &'_ InfoHash,
-    ) -> (r: Vec<SocketAddr>)
-        requires old(self).wf()
-        ensures final(self).wf(), final(self).expires@ == old(self).expires@.filter(live_at(clock())), // @C07.expiry_exactly_24h
-            forall|a: SocketAddr| #[trigger] r@.contains(a) <==> e_has(final(self).expires@, (*info_hash, a)), // @C07.answers_exactly_the_live_pairs
-            forall|i: int, j: int| 0 <= i < j < r@.len() ==> #[trigger] r@[i] != #[trigger] r@[j], // @C07.answers_distinct
-    {
-        self.find(info_hash, Instant::now())
-    }
-//@end
-
-//@begin fn src/storage.rs impl:AnnounceStorage find props=C07
-    pub fn find<'a>(
-        &'a mut self,
-        info_hash: &'_ InfoHash,
-        curr_time: Instant,
-    ) -> (r: Vec<SocketAddr>)
-        requires old(self).wf(), inst_nanos(curr_time) <= clock(),
-        ensures final(self).wf(), final(self).expires@ == old(self).expires@.filter(live_at(inst_nanos(curr_time))), // @C07.expiry_exactly_24h
-            forall|a: SocketAddr| #[trigger] r@.contains(a) <==> e_has(final(self).expires@, (*info_hash, a)), // @C07.answers_exactly_the_live_pairs
-            forall|i: int, j: int| 0 <= i < j < r@.len() ==> #[trigger] r@[i] != #[trigger] r@[j], // @C07.answers_distinct
-    {
-        broadcast use vstd::std_specs::hash::group_hash_axioms, infohash_key_model;
-        // Clear out any old contacts that we have stored
-        self.remove_expired_items(curr_time);
-
-        let vx_ret = vx_opt_vec_map(self.storage
-            .get(info_hash)
-            , |item: &AnnounceItem| -> (a: SocketAddr) ensures a == item.expiration.address { item.address() });
-        let ghost r = vx_ret;
-        proof {
-            let h = *info_hash;
-            let m = self.storage@;
-            if m.contains_key(h) {
-                let l = m[h]@;
-                assert(l_ok(l, h));
-                assert forall|a: SocketAddr| #[trigger] r@.contains(a) <==> e_has(self.expires@, (h, a)) by {
-                    let k = (h, a);
-                    if r@.contains(a) { let i = choose|i: int| 0 <= i < r@.len() && r@[i] == a; assert(l_idx(l, k, i)); assert(st_has(m, k)); }
-                    if st_has(m, k) { let j = choose|j: int| l_idx(l, k, j); assert(r@[j] == a); }
-                }
-                assert forall|i: int, j: int| 0 <= i < j < r@.len() implies #[trigger] r@[i] != #[trigger] r@[j] by {
-                    assert(ikey(l[i]) != ikey(l[j]));
-                }
-            } else {
-                assert forall|a: SocketAddr| #[trigger] r@.contains(a) <==> e_has(self.expires@, (h, a)) by {
-                    assert(!st_has(m, (h, a)));
-                }
-            }
-        }
-        vx_ret
-    }
-//@end
-}
-// ================= C07 corollaries, stated as in the property =================
-/// at most 500 pairs in total, each pair once: the key sets of both structures coincide and `expires` has no duplicate key
-//@props C07
-pub proof fn lemma_capacity(s: AnnounceStorage)
-    requires s.wf()
-    ensures s.expires@.len() <= 500, e_nodup(s.expires@), // @C07.at_most_500_pairs
-        forall|k: Key| #[trigger] st_has(s.storage@, k) <==> e_has(s.expires@, k),
-{}
-/// expiry frees capacity: once every stored pair is 24 h old, a new pair is accepted again
-//@props C07
-pub proof fn lemma_expiry_frees_capacity(s: AnnounceStorage, now: int)
-    requires forall|i: int| 0 <= i < s.expires@.len() ==> expired_at(#[trigger] s.expires@[i], now)
-    ensures E0(s, now).len() == 0 // @C07.expiry_frees_capacity
-{
-    lemma_filter_none(s.expires@, live_at(now));
-}
-/// a pair is returned exactly while it is younger than 24 h (boundary: at exactly 24 h it is gone)
-//@props C07
-pub proof fn lemma_24h_boundary(e: ItemExpiration, now: int)
-    ensures live_at(now)(e) <==> now - inst_nanos(e.inserted) < 86_400_000_000_000 // @C07.expiry_exactly_24h
-{}
-
+//@include inc/info_hash_types.rs
+//@include inc/storage_body.rs
 } // verus!
 fn main() {}
